@@ -10,11 +10,11 @@ PROP = "C18"
 META = {
     "level": "exploration",
     "engine": "component",
-    "claim": "Held on the executed runs: (arithmetic) for every outcome script of length <= 6 over {ok, no-op, backoff request, Exception, BaseException} and random long scripts x parameter triples with 0 < min <= max, mult >= 1, the wait the loop requests after each call equals min(max, min*mult^(k-1)) after k failures since the last effective success, the nominal sleep after an effective success, unchanged after a no-op, and the loop calls the work function exactly once per script entry whatever it raises; (protocol, real threads) over randomised stop/wake/start timings hitting all loop phases no work call begins after stop() returned (or after wait() following a non-waiting stop), cleanup runs exactly once after a final stop and never after a non-final one, a finally stopped service refuses to start, stop_all signals every service before joining any; (notifications) with several producers and failing handlers the handler sees every notification exactly once in raise order; LongPollManager survives poll exceptions with backoff and its non-waiting stop unblocks a blocked consumer.",
+    "claim": "Held on the executed runs: (arithmetic) for every outcome script of length <= 5 (thorough: 7) over {ok, no-op, backoff request, Exception, BaseException, no-op-then-Exception, no-op-then-backoff} and random long scripts x parameter triples with 0 < min <= max, mult >= 1, the wait the loop requests after each call equals min(max, min*mult^(k-1)) after k failures since the last effective success, the nominal sleep after an effective success, unchanged after a no-op, and the loop calls the work function exactly once per script entry whatever it raises; (protocol, real threads) over randomised stop/wake/start timings hitting all loop phases no work call begins after stop() returned (or after wait() following a non-waiting stop), cleanup runs exactly once after a final stop and never after a non-final one, a finally stopped service refuses to start, stop_all signals every service before joining any; (notifications) with several producers and failing handlers the handler sees every notification exactly once in raise order; LongPollManager survives poll exceptions with backoff and its non-waiting stop unblocks a blocked consumer.",
     "note": "Trusted: the duration seam (cloudsync.runnable.threading replaced by a proxy whose Event.wait records the timeout and returns at once) for the arithmetic part; sequence counters, not wall-clock, decide the protocol part; a generous wall-clock watchdog only yields 'inconclusive'. Restarting a NotificationManager after a non-final stop is finding K8.",
     "technique": "runtime monitoring: requested-sleep trace checked against the backoff law (exhaustive scripts) + call-order history checks under real threads",
-    "plan": {"quick": {"shards": 16, "timeout": 600, "maxlen": 6, "random": 2000, "races": 4000, "notif": 320, "lp": 64},
-             "thorough": {"shards": 32, "timeout": 3000, "maxlen": 8, "random": 100000, "races": 40000, "notif": 3000, "lp": 300}},
+    "plan": {"quick": {"shards": 16, "timeout": 600, "maxlen": 5, "random": 2000, "races": 4000, "notif": 320, "lp": 64},
+             "thorough": {"shards": 32, "timeout": 3000, "maxlen": 7, "random": 100000, "races": 40000, "notif": 3000, "lp": 300}},
     "rule": "arithmetic: every script up to the stated length x 4 parameter triples (split over shards) + random scripts of "
             "length 10-60; protocol: one race = start a service, act from another thread (stop final/non-final x waiting/"
             "non-waiting, wake, start) at a random delay, check the call history; notifications: one round = 3 producers x "
@@ -23,7 +23,7 @@ META = {
     "assumptions": ["CPython threads; phases observed by the service itself (in-do / sleeping / between)"],
 }
 
-OUTCOMES = ("ok", "noop", "backoff", "exc", "base")
+OUTCOMES = ("ok", "noop", "backoff", "exc", "base", "noop+exc", "noop+backoff")
 TRIPLES = ((0.01, 1.0, 2.0), (0.5, 0.5, 3.0), (0.1, 7.0, 1.0), (1.0, 100.0, 1.5))
 NOMINAL = 0.123
 
@@ -77,11 +77,11 @@ def arithmetic(script, triple):
             def do(self):
                 o = script[len(calls)] if len(calls) < len(script) else "ok"
                 calls.append(o)
-                if o == "noop":
+                if o.startswith("noop"):
                     self.nothing_happened()
-                elif o == "backoff":
+                if o.endswith("backoff"):
                     self.backoff()
-                elif o == "exc":
+                elif o.endswith("exc"):
                     raise ValueError("scripted")
                 elif o == "base":
                     raise Boom("scripted")
@@ -98,7 +98,7 @@ def arithmetic(script, triple):
     b = 0.0
     k = 0
     for i, o in enumerate(script):
-        if o in ("backoff", "exc", "base"):
+        if o in ("backoff", "exc", "base", "noop+exc", "noop+backoff"):     # a call that fails is a failure whatever it said before
             k += 1
             b = min(mx, mn * (mult ** (k - 1)))
         elif o == "ok":
@@ -485,7 +485,7 @@ def shard(ctx, acc):
                 acc.evaluations += 1
                 acc.count("scripts_exhaustive")
                 acc.count("work_calls", len(script))
-                if any(o in ("backoff", "exc", "base") for o in script):
+                if any(o != "ok" and o != "noop" for o in script):
                     acc.sigs.add("a:%d:%d" % (idx, ti))
                 if probs:
                     acc.violation(probs[0][0], probs[:2], {"family": "ARITH", "script": list(script), "triple": list(tr)})
